@@ -18,7 +18,11 @@ FAMILIES = [
     dict(name="targetdb", params=dict(BASE, tdb=1, kf=True, resume=True, crash=0, kinds=["w", "wm", "ping"]), mc_len=(4, 6), paths_quick=150, paths_thorough=1500, free=(4, 20)),
     dict(name="targetdb-dbfilter", params=dict(BASE, tdb=1, fdbs=[1], kinds=["w", "ping"]), mc_len=(5, 6), paths_quick=150, paths_thorough=1500),
     dict(name="cmdfilter", params=dict(BASE, lua=True, sender_count=3, kinds=["w", "wf", "wm", "eval", "opinfo", "hello", "ping"]), mc_len=(4, 5), paths_quick=150, paths_thorough=1500),
-    dict(name="keyfilter-txn", params=dict(BASE, kf=True, maxlen=8, sender_count=2, kinds=["w", "wf", "multi"]), mc_len=(5, 6), paths_quick=300, paths_thorough=2500, depth=80),
+    dict(name="keyfilter-txn", params=dict(BASE, kf=True, maxlen=8, sender_count=2, kinds=["w", "wf", "multi"]), mc_len=(5, 6), paths_quick=300, paths_thorough=2500, depth=80,
+         # a key-filtered write right before / after a transaction marker, followed by another transaction
+         fixed=[[("sel", 0), ("multi", -1), ("w", -1), ("wf", -1), ("exec", -1), ("multi", -1), ("w", -1), ("exec", -1)],
+                [("sel", 0), ("wf", -1), ("multi", -1), ("w", -1), ("exec", -1), ("w", -1)],
+                [("sel", 0), ("multi", -1), ("wf", -1), ("exec", -1), ("w", -1), ("multi", -1), ("w", -1), ("wf", -1), ("exec", -1)]]),
     dict(name="nolua-batch1", params=dict(BASE, lua=False, kf=True, sender_count=1, kinds=["w", "wf", "eval", "multi"]), mc_len=(4, 6), paths_quick=100, paths_thorough=1000),
 ]
 
